@@ -10,7 +10,10 @@ import (
 	"strconv"
 	"strings"
 
+	"k8s.io/apimachinery/pkg/util/sets"
+
 	v1 "sigs.k8s.io/karpenter/pkg/apis/v1"
+	"sigs.k8s.io/karpenter/pkg/cloudprovider/fake"
 	"sigs.k8s.io/karpenter/pkg/scheduling"
 
 	"verifharness/internal/core"
@@ -110,9 +113,15 @@ type CompatIn struct {
 	A              []KeyExprs `json:"a"`
 	B              []KeyExprs `json:"b"`
 	AllowWellKnown bool       `json:"allowWellKnown"`
+	// WellKnown is v1.WellKnownLabels as it is in this process when the case is generated: the set is extended at run
+	// time by cloud providers (here: the fake provider's init()), and AllowUndefinedWellKnownLabels must hand out the
+	// live set
+	WellKnown []string `json:"wellKnown"`
 }
 
-var compatKeys = []string{"team", "example.com/tier", "k3", "topology.kubernetes.io/zone", "node.kubernetes.io/instance-type", "karpenter.sh/capacity-type", "kubernetes.io/hostname", "failure-domain.beta.kubernetes.io/zone"}
+var compatKeys = []string{"team", "example.com/tier", "k3", "topology.kubernetes.io/zone", "node.kubernetes.io/instance-type", "karpenter.sh/capacity-type", "kubernetes.io/hostname", "failure-domain.beta.kubernetes.io/zone",
+	// well-known labels registered at run time by the (fake) cloud provider
+	fake.LabelInstanceSize, fake.ExoticInstanceLabelKey, fake.IntegerInstanceLabelKey}
 
 func buildReqs(l []KeyExprs) scheduling.Requirements {
 	R := scheduling.NewRequirements()
@@ -141,7 +150,7 @@ func genReqs(r *rand.Rand) []KeyExprs {
 }
 
 func genCompat(r *rand.Rand, t core.Tier) any {
-	in := CompatIn{A: genReqs(r), B: genReqs(r), AllowWellKnown: r.Float64() < 0.6}
+	in := CompatIn{A: genReqs(r), B: genReqs(r), AllowWellKnown: r.Float64() < 0.6, WellKnown: sets.List(v1.WellKnownLabels)}
 	// make shared keys likely
 	if len(in.A) > 0 && len(in.B) > 0 && r.Float64() < 0.6 {
 		in.B[0].Key = in.A[0].Key
@@ -163,6 +172,63 @@ func implCompat(raw json.RawMessage) (any, error) {
 		err = A.Compatible(B)
 	}
 	return map[string]any{"compatible": err == nil, "intersects": A.Intersects(B) == nil}, nil
+}
+
+
+// ---------- c12.valuemap ----------
+
+// A cloud provider may register value translations for a (normalized) label key in v1.NormalizedLabelValues at start-up
+// (none is registered in core). The op installs a table for the duration of one constructor call (Serial: the table is
+// process-wide), builds a requirement through a stable or an alias key and observes it.
+type ValueMapIn struct {
+	Table  map[string]map[string]string `json:"table"` // normalized key -> from -> to
+	Key    string                       `json:"key"`
+	Op     string                       `json:"op"`
+	Values []string                     `json:"values"`
+	Probes []string                     `json:"probes"`
+}
+
+var vmKeys = []string{"topology.kubernetes.io/zone", "failure-domain.beta.kubernetes.io/zone", "topology.kubernetes.io/region", "failure-domain.beta.kubernetes.io/region", "team"}
+var vmVals = []string{"", "a", "b", "A", "0", "eu", "europe"}
+
+func genValueMap(r *rand.Rand, t core.Tier) any {
+	in := ValueMapIn{Table: map[string]map[string]string{}, Key: vmKeys[r.IntN(len(vmKeys))], Op: []string{"In", "NotIn", "In", "Exists"}[r.IntN(4)]}
+	for _, k := range []string{"topology.kubernetes.io/zone", "topology.kubernetes.io/region", "team", "failure-domain.beta.kubernetes.io/zone"} {
+		if r.Float64() < 0.6 {
+			m := map[string]string{}
+			for i := 0; i < 1+r.IntN(3); i++ {
+				m[vmVals[r.IntN(len(vmVals))]] = vmVals[r.IntN(len(vmVals))]
+			}
+			in.Table[k] = m
+		}
+	}
+	if in.Op != "Exists" {
+		for i := 0; i < 1+r.IntN(3); i++ {
+			in.Values = append(in.Values, vmVals[r.IntN(len(vmVals))])
+		}
+	} else {
+		in.Values = []string{}
+	}
+	in.Probes = append([]string{}, vmVals...)
+	return in
+}
+
+func implValueMap(raw json.RawMessage) (any, error) {
+	var in ValueMapIn
+	if err := json.Unmarshal(raw, &in); err != nil {
+		return nil, err
+	}
+	saved := v1.NormalizedLabelValues
+	v1.NormalizedLabelValues = in.Table
+	defer func() { v1.NormalizedLabelValues = saved }()
+	orig := append([]string{}, in.Values...)
+	r := rg.New(in.Key, rg.Expr{Op: in.Op, Values: in.Values})
+	has := make([]bool, len(in.Probes))
+	for i, p := range in.Probes {
+		has[i] = r.Has(p)
+	}
+	_ = orig
+	return map[string]any{"snap": rg.SnapOf(r), "has": has}, nil
 }
 
 // ---------- c12.atoi ----------
@@ -392,13 +458,49 @@ func Ops() []*core.Op {
 				json.Unmarshal(raw, &in)
 				var out []any
 				for _, a := range core.ShrinkList(in.A) {
-					out = append(out, CompatIn{A: a, B: in.B, AllowWellKnown: in.AllowWellKnown})
+					out = append(out, CompatIn{A: a, B: in.B, AllowWellKnown: in.AllowWellKnown, WellKnown: in.WellKnown})
 				}
 				for _, b := range core.ShrinkList(in.B) {
-					out = append(out, CompatIn{A: in.A, B: b, AllowWellKnown: in.AllowWellKnown})
+					out = append(out, CompatIn{A: in.A, B: b, AllowWellKnown: in.AllowWellKnown, WellKnown: in.WellKnown})
 				}
 				return out
 			},
+		},
+		{
+			Name:   "c12.valuemap",
+			Doc:    "NewRequirement under a provider-registered v1.NormalizedLabelValues table (installed for the call): values are translated by the table entry of the NORMALIZED key, through stable and alias keys",
+			N:      func(t core.Tier) int { return map[core.Tier]int{core.Quick: 1500, core.Thorough: 20000}[t] },
+			Gen:    genValueMap,
+			Impl:   implValueMap,
+			Serial: true,
+			Rule:   "non-trivial = the table has an entry for the normalized key that translates one of the operand values",
+			Nontrivial: func(raw json.RawMessage, _ any) bool {
+				var in ValueMapIn
+				json.Unmarshal(raw, &in)
+				m := in.Table[normKey(in.Key)]
+				for _, v := range in.Values {
+					if to, ok := m[v]; ok && to != v {
+						return true
+					}
+				}
+				return false
+			},
+			Labels: func(raw json.RawMessage, _ any) []string {
+				var in ValueMapIn
+				json.Unmarshal(raw, &in)
+				l := []string{"op=" + in.Op}
+				if normKey(in.Key) != in.Key {
+					l = append(l, "alias-key")
+				}
+				if _, ok := in.Table[normKey(in.Key)]; ok {
+					l = append(l, "table-for-normalized-key")
+				}
+				if _, ok := in.Table[in.Key]; ok && normKey(in.Key) != in.Key {
+					l = append(l, "table-for-alias-key-only-must-be-ignored")
+				}
+				return l
+			},
+			Signature: func(raw json.RawMessage, impl any) string { return "valuemap" },
 		},
 		{
 			Name: "c12.atoi",
